@@ -260,3 +260,23 @@ CLAIMS = {
                        'compose at run time; real-signal timing.',
     },
 }
+
+# clauses added with validation round 7 (DESIGN.md 11.5 / 11.6)
+_ROUND7 = {
+    'C01': ' The command start time is the floor of the recorded mtime: a zero store to record_mtime reaches RecordCommand only in a dry run or through the store of command_start_time_.',
+    'C05': ' The missing-source error is skipped by no condition other than "has a producer", "not dirty" or "created by a dep loader".',
+    'C06': ' Every finished edge that was wanted passes Pool::EdgeFinished, and every finished edge passes RetrieveReadyEdges, whatever its kind or result.',
+    'C07': ' A record write that is not followed by a dominating fflush before the memory update is reported as a violation (not as a vanished anchor).',
+    'C08': ' The Restat selection may be written through flags, composites, std algorithms or a predicate helper: the guard in force at the mtime store must imply "no outputs named" or equality with a named output (justified()).',
+    'C09': ' After a successful fread in the record loop the load succeeds only by advancing offset past the record or through Truncate(path, offset).',
+    'C10': ' CLParser::IsSystemInclude answers true only where the path contains one of the two documented installation markers (frozen table).',
+    'C11': ' In-place canonicalisation through the (char*, size_t*) overload counts only if the new length is the piece\'s own len_ or the string is cut to it before interning.',
+    'C12': ' Every name pushed on EdgeEnv::lookups_ is popped on every path to a return of LookupVariable.',
+    'C13': ' StringPiece::str_ (a slice without terminator) is handed to no function that reads up to a NUL (libc string / file functions, one-argument std::string operations), with a positive control.',
+    'C16': ' The string returned by Edge::EvaluateCommand is only appended to (under incl_rsp_file), never rewritten, also through helpers taking its address; a shell-escaping EdgeEnv may be built anywhere except in the GetUnescaped* accessors.',
+    'C18': ' Clean-by-target leaves an input out of the descent only because it was visited already; Cleaner::Remove acts on every path that was not removed already.',
+    'C19': ' BuildConfig::dry_run is only ever set (= true, |=, or a store of a value known true at that point).',
+    'C20': ' Taking the console lock passes PrintOnNewLine / Print / fflush first on every kind of terminal.',
+}
+for _k, _v in _ROUND7.items():
+    CLAIMS[_k]['decides'] += _v
